@@ -62,3 +62,32 @@ theorem storeLits_ok (ring : Bytes) (mask start : Nat) (mb : Bytes) (litD litB :
       simp
 
 end BV.MetaBlock
+
+namespace BV.MetaBlock
+open BV.Gen BV.Bits BV.Huffman BV.PrefixArith BV.Recoder
+open BV.Lemmas.HuffmanRead (takeBits_bitsOf)
+
+/-- the insert half of a command, reader side, on the three bit segments the writer produces -/
+theorem readInsert_ok (lit cmd : Code) (mlen k : Nat) (out : Bytes) (sym ic cc ib ie cb ce ins clc : Nat)
+    (sb lb rest : List Bool) (L : Bytes)
+    (hread : ∀ r, cmd.read (sb ++ r) = some (sym, r)) (hsym : sym < 704)
+    (hic : (rfcCmdDecode sym).1 = ic) (hcc : (rfcCmdDecode sym).2.1 = cc)
+    (hit : rfcInsTable[ic]? = some (ib, ie)) (hct : rfcCopyTable[cc]? = some (cb, ce))
+    (hib : ib ≤ ins) (hie : ins - ib < 2 ^ ie) (hcb : cb ≤ clc) (hce : clc - cb < 2 ^ ce)
+    (hk : ins ≤ mlen - k)
+    (hlits : ∀ acc r, readLiterals lit ins acc (lb ++ r) = some (acc ++ L, r)) :
+    readInsert lit cmd mlen k out (sb ++ ((bitsOf ie (ins - ib) ++ bitsOf ce (clc - cb)) ++ (lb ++ rest)))
+      = some (ins, clc, (rfcCmdDecode sym).2.2, out ++ L, rest) := by
+  unfold readInsert
+  rw [hread]
+  simp only [show ¬ sym ≥ 704 by omega, if_false, hic, hcc, hit, hct]
+  rw [List.append_assoc, takeBits_bitsOf ie _ _ hie]
+  simp only
+  rw [takeBits_bitsOf ce _ _ hce]
+  simp only
+  have e1 : ib + (ins - ib) = ins := by omega
+  have e2 : cb + (clc - cb) = clc := by omega
+  rw [e1, e2, if_neg (by omega), hlits]
+  simp
+
+end BV.MetaBlock
